@@ -221,6 +221,12 @@ def gen_op(rng, sh, stamped, projected):
             else:
                 ids = [int(v) for v in rng.choice(ids, size=len(ids), replace=True)]
             op["ids"] = ids
+        if rng.random() < .2:
+            # from-the-end indices: the last k poses (range(-k, 0)), or any selection spelled that way
+            if rng.random() < .5:
+                op["ids"] = list(range(-int(rng.integers(1, sh.n + 1)), 0))
+            else:
+                op["ids"] = [int(i) - sh.n for i in op["ids"]]
         op["as_array"] = bool(rng.random() < .5)
     elif name in ("down", "down_path"):
         op["N"] = int(rng.integers(1, sh.n + 2))
@@ -291,9 +297,9 @@ def apply_op(run, case, real, sh, op, stamped, state, step):
         real.scale(op["s"])
         sh.scale(op["s"])
     elif name == "ids":
-        ids = [i for i in op["ids"] if i < sh.n] or [0]
+        ids = [i for i in op["ids"] if -sh.n <= i < sh.n] or [0]
         real.reduce_to_ids(np.array(ids) if op.get("as_array") else list(ids))
-        sh.reduce(ids)
+        sh.reduce([i % sh.n for i in ids])
     elif name == "down_path":
         before = sh.n
         real.downsample(op["N"])
